@@ -60,6 +60,11 @@ def eval_poly(p, env):
     return total
 
 
+# exact values of the float constants that may appear in guards (f64 instantiation)
+CONST_ENV = {("c", "F::MIN_POSITIVE"): Fr(1, 2 ** 1022), ("c", "EPS_f64"): Fr(1, 2 ** 52), ("c", "EPS_f32"): Fr(1, 2 ** 23),
+             ("c", "F::MAX"): Fr(2) ** 1024 - Fr(2) ** 971, ("c", "F::MIN"): -(Fr(2) ** 1024 - Fr(2) ** 971)}
+
+
 def eval_atom(a, env):
     if a in env:
         return env[a]
